@@ -29,6 +29,7 @@ type stressCaller struct {
 // StressResult is what one hook-free concurrent trial showed.
 type StressResult struct {
 	Callers, Frames int
+	CrossSubject    int // frames published on the reply subject of another request (NATS)
 	Shape           string
 	Bad             string // C01 refuted (correlation)
 	Stall           string // C06 refuted: reader established blocked forever
@@ -158,21 +159,39 @@ func StressTrial(legName string, n int, seed int64, nats *NatsServer, maxCopies 
 			return res
 		}
 	}
+	// subj is the op id the transport-level address names (the NATS reply
+	// subject <inbox>.<subj>); a hostile responder may publish a frame on the
+	// reply subject of another request, and the frame's own _opid must still
+	// decide who completes.  The first copy for an answered caller always
+	// travels on its own subject so that every 'A' caller can return.
 	type fr struct {
-		op  uint64
-		tok string
+		op   uint64
+		tok  string
+		subj uint64
 	}
 	var plan []fr
+	otherSubj := func(own uint64) uint64 {
+		if legName != "nats" || rng.Intn(2) == 0 {
+			return own
+		}
+		res.CrossSubject++
+		return cs[rng.Intn(len(cs))].opid
+	}
 	for i, c := range cs {
 		if c.kind == 'A' {
 			for k := 0; k < c.copies; k++ {
-				plan = append(plan, fr{c.opid, fmt.Sprintf("resp:c%d:k%d", i, k)})
+				subj := c.opid
+				if k > 0 {
+					subj = otherSubj(c.opid)
+				}
+				plan = append(plan, fr{c.opid, fmt.Sprintf("resp:c%d:k%d", i, k), subj})
 			}
 		}
 	}
 	for u := rng.Intn(4); u > 0; u-- {
 		uctx := frugal.NewFContext("")
-		plan = append(plan, fr{OpidOf(uctx), "resp:unknown"})
+		uop := OpidOf(uctx)
+		plan = append(plan, fr{uop, "resp:unknown", otherSubj(uop)})
 	}
 	switch rng.Intn(3) {
 	case 0: // any permutation
@@ -191,7 +210,7 @@ func StressTrial(legName string, n int, seed int64, nats *NatsServer, maxCopies 
 		leg.Inject(0, all) // several frames in one read
 	} else {
 		for _, f := range plan {
-			leg.Inject(f.op, FrameFor(f.op, f.tok))
+			leg.Inject(f.subj, FrameFor(f.op, f.tok))
 		}
 	}
 	res.Frames = len(plan)
